@@ -71,9 +71,23 @@ def check_minute(res, zone, date, now_epoch, m):
 
 
 def run_job(job):
+    import datetime
+
     res = Res()
     for d in job["dates"]:
         run_date({"zone": job["zone"], "date": d}, res)
+    # second enumeration order: the same clock string asked on one date after the other (what was computed for
+    # an earlier date must not be remembered)
+    zone = job["zone"]
+    set_zone(zone)
+    with Clock(0.0) as clk:
+        for m in (0, 1, 754, 1439):
+            for rnd in range(2):
+                for d in (job["dates"] if rnd == 0 else reversed(job["dates"])):
+                    date = datetime.date.fromisoformat(d)
+                    now = Z.epoch_at(zone, date, 12, 0, 0)
+                    clk.move_to(float(now) + 0.25)
+                    check_minute(res, zone, date, now, m)
     return res
 
 
